@@ -93,6 +93,78 @@ def run_real(cfg):
         return f"rejected {stage} {type(ex).__name__}"
     return "ok"
 
+# ---------------------------------------------------------------- parameters of the other edge kinds (no model: the rule is the property's)
+
+def run_edge(kind, params):
+    """Source -> <edge> -> Machine -> Buffer -> Sink with the given edge parameters; classify what happens"""
+    quiet()
+    from factorysimpy.nodes.source import Source
+    from factorysimpy.nodes.sink import Sink
+    from factorysimpy.nodes.machine import Machine
+    from factorysimpy.edges.buffer import Buffer
+    env = _simpy.Environment()
+    try:
+        if kind == "fleet":
+            from factorysimpy.edges.fleet import Fleet
+            e = Fleet(env, "E", capacity=params["capacity"], delay=params["delay"], transit_delay=params["transit"])
+        elif kind == "slot":
+            from factorysimpy.edges.slotted_conveyor import ConveyorBelt
+            e = ConveyorBelt(env, "E", capacity=params["capacity"], delay=params["delay"], accumulating=params["acc"])
+        else:
+            from factorysimpy.edges.continuous_conveyor import ConveyorBelt
+            e = ConveyorBelt(env, "E", conveyor_length=params["length"], speed=params["speed"], item_length=params["ilen"], accumulating=params["acc"])
+        b2 = Buffer(env, "B2", capacity=2, delay=0)
+        src = Source(env, "S", inter_arrival_time=1.0, blocking=True, item_length=params.get("ilen", 1) if kind == "cbelt" and isinstance(params.get("ilen"), (int, float)) and params.get("ilen", 1) > 0 else 1)
+        m = Machine(env, "M", processing_delay=1.0); k = Sink(env, "K")
+        e.connect(src, m); b2.connect(m, k)
+    except Exception as ex:
+        return f"rejected construction {type(ex).__name__}"
+    steps = 0
+    try:
+        import warnings
+        while env._queue and env.peek() < 12:
+            env.step(); steps += 1
+            if steps > 20000: return "livelock"
+    except Exception as ex:
+        return f"rejected run {type(ex).__name__}"
+    return "ok"
+
+def edge_param_cases():
+    """(kind, params, valid?) - valid means: every parameter inside its documented domain (positive integer capacity, positive length /
+    item length / speed, non-negative delays)"""
+    out = []
+    for cap in (-1, 0, 2, 1):
+        for d in (-1.0, -0.25, 0, 2.0):
+            for tr in (-1.0, -0.25, 0, 0.5):
+                out.append(("fleet", dict(capacity=cap, delay=d, transit=tr), cap > 0 and d >= 0 and tr >= 0))
+    for cap in (-1, 0, 2):
+        for d in (-1.0, -0.25, 0, 1.0):
+            for acc in (0, 1):
+                out.append(("slot", dict(capacity=cap, delay=d, acc=acc), cap > 0 and d >= 0))
+    for L in (-1, 0, 3):
+        for sp in (-1.0, 0, 1.0, 2.5):
+            for il in (-1, 0, 1, 0.5):
+                out.append(("cbelt", dict(length=L, speed=sp, ilen=il, acc=0), L > 0 and sp > 0 and il > 0))
+    return out
+
+def run_edge_params():
+    """returns dict(cases, viol=[(kind, params, valid, outcome, msg)], livelock_fleet_delay0)"""
+    import warnings
+    viol = []; n = 0; d8 = 0; outcomes = {}
+    with warnings.catch_warnings():
+        warnings.simplefilter("ignore")
+        for kind, params, valid in edge_param_cases():
+            n += 1
+            o = run_edge(kind, params)
+            outcomes[o.split()[0] + ("" if o in ("ok", "livelock") else " " + o.split()[1])] = outcomes.get(o.split()[0] + ("" if o in ("ok", "livelock") else " " + o.split()[1]), 0) + 1
+            if o == "livelock" and kind == "fleet" and params["delay"] == 0 and params["capacity"] > 0:
+                d8 += 1; continue       # known finding KF-D8: with delay 0 the fleet spins at t = 0 before anything else can happen
+            if valid and o != "ok":
+                viol.append((kind, params, valid, o, f"valid {kind} parameters {params} do not run to completion: {o}"))
+            if not valid and o in ("ok", "livelock"):
+                viol.append((kind, params, valid, o, f"invalid {kind} parameters {params} are simulated instead of being rejected ({o})"))
+    return dict(cases=n, viol=viol, kf_d8=d8, outcomes=outcomes)
+
 def gen_configs(rng, n):
     out = [dict(DEFAULT)]
     for f in FIELDS:                       # one factor at a time
